@@ -1,7 +1,7 @@
 (** C12 - Collection built-ins obey the invariants and equations the manual states.
     Model: Val/Val.v [sort_by] (stable insertion sort = the contract of Rust's stable sorts), Std/Natives.v. *)
 From Coq Require Import List ZArith Sorting.Permutation Sorting.Sorted.
-From JaqV Require Import Base.Stream Val.Num Val.Val Std.Natives Proofs.SortLaws Proofs.ValOrder Proofs.GroupLaws.
+From JaqV Require Import Base.Stream Val.Num Val.Val Std.Natives Proofs.SortLaws Proofs.ValOrder Proofs.GroupLaws Proofs.SearchLaws Val.Index Val.Err Base.Bytes.
 Import ListNotations.
 
 Lemma insert_by_perm {A} (c : A -> A -> comparison) a l : Permutation (a :: l) (insert_by c a l).
@@ -78,3 +78,29 @@ Theorem extrema_are_extremal : forall N, tpo num_cmp N -> forall is_max f xs kx,
   end.
 Proof. exact GroupLaws.extremal_by_spec. Qed.
 Print Assumptions extrema_are_extremal.
+
+(** ** `indices($x)` lists exactly the positions i with `.[i:][:$x|length] == $x` (Proofs/SearchLaws.v)
+    For an array searched for a non-empty sub-array and a byte string searched for a non-empty byte string the result is the
+    increasing list of exactly those positions k at which the window of the needle's length exists and equals the needle
+    ([firstn n (skipn k x)] is what `.[k:][:n]` reads, C10); overlapping occurrences are all listed; an empty needle yields
+    nothing; an array searched for a non-array lists the positions of the elements equal to it. *)
+Theorem indices_lists_exactly_the_matching_windows : forall x y, y <> [] ->
+  exists ps, indices (Arr x) (Arr y) = Ok (Arr (map vint ps)) /\ SearchLaws.lists_exactly Index.list_eqb_val x y ps.
+Proof. exact SearchLaws.indices_arrays_spec. Qed.
+Print Assumptions indices_lists_exactly_the_matching_windows.
+
+Theorem indices_of_byte_strings : forall x y : Bytes.bytes, y <> [] ->
+  exists ps, indices (BStr x) (BStr y) = Ok (Arr (map vint ps)) /\ SearchLaws.lists_exactly Bytes.bytes_eqb x y ps.
+Proof. exact SearchLaws.indices_bytes_spec. Qed.
+Print Assumptions indices_of_byte_strings.
+
+Theorem indices_of_an_empty_needle : forall x b,
+  indices (Arr x) (Arr []) = Ok (Arr []) /\ indices (BStr b) (BStr []) = Ok (Arr []) /\ indices (TStr b) (TStr []) = Ok (Arr []).
+Proof. exact SearchLaws.indices_empty_needle. Qed.
+Print Assumptions indices_of_an_empty_needle.
+
+Theorem indices_of_an_element : forall a y, (forall l, y <> Arr l) ->
+  indices (Arr a) y = Ok (Arr (map vint (map (fun k => Z.of_nat k)
+     (filter (fun k => match nth_error a k with Some e => val_eqb e y | None => false end) (seq 0 (length a)))))).
+Proof. exact SearchLaws.indices_element. Qed.
+Print Assumptions indices_of_an_element.
